@@ -570,12 +570,36 @@ func fmtDesym(argsIdx int) externalFn {
 	return func(fr *frame, a []value) value {
 		if vs, ok := a[argsIdx].([]value); ok {
 			var cp []value
+			var verbs []string
+			hasFormat := false
+			if argsIdx > 0 {
+				if f, ok := a[argsIdx-1].(string); ok {
+					hasFormat, verbs = true, fmtVerbs(f)
+				}
+			}
 			for k, e := range vs {
 				if it, ok := e.(iface); ok && containsSym(it.v) {
 					if cp == nil {
 						cp = append([]value{}, vs...)
 					}
 					cp[k] = iface{t: types.Typ[types.String], v: "<sym>"}
+					if x, isScalar := it.v.(*SymVal); isScalar && x.t.w < 0 {
+						// a symbolic float: rendered as a float token (contract model, intrinsics_float.go);
+						// the operand becomes a string, so the verb is replaced by %s below
+						verb := ""
+						if hasFormat {
+							verb = "%!"
+							if k < len(verbs) {
+								verb = verbs[k]
+							}
+						}
+						cp[k] = iface{t: types.Typ[types.String], v: fr.fmtFloatOperand(x, verb)}
+						if hasFormat && k < len(verbs) {
+							a = append([]value{}, a...)
+							a[argsIdx-1] = replaceVerb(a[argsIdx-1].(string), k, "%s")
+							verbs = fmtVerbs(a[argsIdx-1].(string))
+						}
+					}
 				}
 			}
 			if cp != nil {
